@@ -80,7 +80,8 @@ func privNamesCoq() string {
 // source forms
 
 type pform struct {
-	kind string // get set in call arith log
+	kind string // get set in call arith log target
+	ctx  int    // target: 0 "[T.#x = V] = v1", 1 "for (T.#x of v1)", 2 "[T.#x] = v1", 3 "({a: T.#x = V} = v1)", 4 "for ([T.#x = V] of v1)", 5 "for (T.#x in v1)"
 	t, v *Ex
 	args []*Ex
 	x    int // index into privNames
@@ -115,8 +116,35 @@ func (f *pform) JS() string {
 		return paren(f.t) + "." + n + " " + binText[f.op] + "= " + paren(f.v)
 	case "log":
 		return paren(f.t) + "." + n + " " + binText[f.op] + "= " + paren(f.v)
+	case "target":
+		m := paren(f.t) + "." + n
+		switch f.ctx {
+		case 0:
+			return "[" + m + " = " + paren(f.v) + "] = v1"
+		case 1:
+			return "for (" + m + " of v1) ;"
+		case 2:
+			return "[" + m + "] = v1"
+		case 3:
+			return "({a: " + m + " = " + paren(f.v) + "} = v1)"
+		case 4:
+			return "for ([" + m + " = " + paren(f.v) + "] of v1) ;"
+		default:
+			return "for (" + m + " in v1) ;"
+		}
 	}
 	panic("bad form")
+}
+
+// statement that carries the form inside method test
+func (f *pform) stmt() string {
+	if f.kind != "target" {
+		return "v9 = (" + f.JS() + ");"
+	}
+	if f.ctx == 1 || f.ctx == 4 || f.ctx == 5 {
+		return f.JS() + " v9 = 0;"
+	}
+	return "v9 = (" + f.JS() + ");"
 }
 
 func exList(xs []*Ex) string {
@@ -142,6 +170,8 @@ func (f *pform) Coq() string {
 		return fmt.Sprintf("(PArith %s %s %s %s)", binNames[f.op], f.t.Coq(), x, f.v.Coq())
 	case "log":
 		return fmt.Sprintf("(PLog %s %s %s %s)", lopNames[f.op], f.t.Coq(), x, f.v.Coq())
+	case "target":
+		return fmt.Sprintf("(PTarget %s %s)", f.t.Coq(), x)
 	}
 	panic("bad form")
 }
@@ -171,7 +201,9 @@ func privOperand(r *Rng, target bool) *Ex {
 
 func genPform(r *Rng) *pform {
 	f := &pform{x: r.Intn(len(privNames)), t: privOperand(r, true)}
-	switch r.Intn(8) {
+	switch r.Intn(9) {
+	case 8:
+		f.kind, f.v, f.ctx = "target", privOperand(r, false), r.Intn(6)
 	case 0:
 		f.kind = "get"
 	case 1:
@@ -235,6 +267,8 @@ func (p *Px) Coq() string {
 		return fmt.Sprintf("(HNeNull %s)", k(0))
 	case "HTmpSet":
 		return fmt.Sprintf("(HTmpSet %s %s)", CZ(p.Op), k(0))
+	case "HWrapper":
+		return fmt.Sprintf("(HWrapper %s %s %s)", k(0), CZ(p.St), opt())
 	}
 	panic("bad pexp kind")
 }
@@ -357,6 +391,16 @@ func (d *dumper) pexp(x js_ast.Expr) *Px {
 		d.fail = fmt.Sprintf("unexpected binary operator %d around a helper call", e.Op)
 	case *js_ast.EIf:
 		return &Px{K: "HIf", Kids: []*Px{d.pexp(e.Test), d.pexp(e.Yes), d.pexp(e.No)}}
+	case *js_ast.EDot:
+		// __privateWrapper(t, st [, sr])._
+		if call, ok := e.Target.Data.(*js_ast.ECall); ok && e.Name == "_" && d.helperName(e.Target) == "__privateWrapper" {
+			if a := call.Args; len(a) == 2 {
+				return &Px{K: "HWrapper", Kids: []*Px{d.pexp(a[0])}, St: d.privId(a[1])}
+			} else if len(a) == 3 {
+				return &Px{K: "HWrapper", Kids: []*Px{d.pexp(a[0])}, St: d.privId(a[1]), Fn: d.privId(a[2]), HasFn: true}
+			}
+		}
+		d.fail = "unexpected member access on a helper call"
 	default:
 		d.fail = fmt.Sprintf("unexpected node %T around a helper call", x.Data)
 	}
@@ -365,7 +409,51 @@ func (d *dumper) pexp(x js_ast.Expr) *Px {
 
 // parsePriv parses esbuild's output and dumps the right-hand side of the
 // "v9 = ..." statement of method test of class C.
-func parsePriv(code string) (*Px, string) {
+func parsePriv(code string) (*Px, string) { return parsePrivCtx(code, -1) }
+
+// the assignment target inside the pattern / loop head of a "target" form
+func privTargetExpr(body []js_ast.Stmt, ctx int) (js_ast.Expr, string) {
+	elem := func(x js_ast.Expr) js_ast.Expr { // strip "= default"
+		if b, ok := x.Data.(*js_ast.EBinary); ok && b.Op == js_ast.BinOpAssign {
+			return b.Left
+		}
+		return x
+	}
+	pattern := func(x js_ast.Expr) (js_ast.Expr, string) {
+		switch e := x.Data.(type) {
+		case *js_ast.EArray:
+			if len(e.Items) == 1 {
+				return elem(e.Items[0]), ""
+			}
+		case *js_ast.EObject:
+			if len(e.Properties) == 1 {
+				return elem(e.Properties[0].ValueOrNil), ""
+			}
+		}
+		return x, ""
+	}
+	for _, st := range body {
+		switch s := st.Data.(type) {
+		case *js_ast.SForOf:
+			if init, ok := s.Init.Data.(*js_ast.SExpr); ok && (ctx == 1 || ctx == 4) {
+				return pattern(init.Value)
+			}
+		case *js_ast.SForIn:
+			if init, ok := s.Init.Data.(*js_ast.SExpr); ok && ctx == 5 {
+				return pattern(init.Value)
+			}
+		case *js_ast.SExpr:
+			if asg, ok := s.Value.Data.(*js_ast.EBinary); ok && asg.Op == js_ast.BinOpAssign && (ctx == 0 || ctx == 2 || ctx == 3) {
+				if inner, ok := asg.Right.Data.(*js_ast.EBinary); ok && inner.Op == js_ast.BinOpAssign {
+					return pattern(inner.Left)
+				}
+			}
+		}
+	}
+	return js_ast.Expr{}, "target statement not found in method test"
+}
+
+func parsePrivCtx(code string, ctx int) (*Px, string) {
 	log := logger.NewDeferLog(logger.DeferLogNoVerboseOrDebug, nil)
 	opts := config.Options{OmitRuntimeForTests: true}
 	tree, ok := js_parser.Parse(log, logger.Source{Index: 0, KeyPath: logger.Path{Text: "<stdin>"}, Contents: code, IdentifierName: "stdin"}, js_parser.OptionsFromConfig(&opts))
@@ -391,6 +479,21 @@ func parsePriv(code string) (*Px, string) {
 	}
 	if body == nil {
 		return nil, "method test not found in the output"
+	}
+	if ctx >= 0 {
+		x, why := privTargetExpr(body, ctx)
+		if why != "" {
+			return nil, why
+		}
+		d := &dumper{syms: tree.Symbols, tmps: map[string]int64{}}
+		px := d.pexp(x)
+		if d.fail != "" {
+			return nil, d.fail
+		}
+		if px.K != "HWrapper" {
+			return nil, "the assignment target is not lowered through __privateWrapper"
+		}
+		return px, ""
 	}
 	var last *js_ast.SExpr
 	for _, st := range body {
@@ -429,7 +532,7 @@ func privStream(r *Rng, st *Stats, cf *CoqFile, n int) {
 	names := privNamesCoq()
 	add := func(f *pform, fs featSet) {
 		fs.optchain, fs.logasg = false, r.Bool()
-		src := "class C {\n" + privClassMembers + "  test() { v9 = (" + f.JS() + "); }\n}\n"
+		src := "class C {\n" + privClassMembers + "  test() { " + f.stmt() + " }\n}\n"
 		res := api.Transform(src, privOptions(fs))
 		if len(res.Errors) > 0 {
 			st.Histogram["priv-input-rejected"]++
@@ -438,7 +541,11 @@ func privStream(r *Rng, st *Stats, cf *CoqFile, n int) {
 			}
 			return
 		}
-		out, why := parsePriv(string(res.Code))
+		ctx := -1
+		if f.kind == "target" {
+			ctx = f.ctx
+		}
+		out, why := parsePrivCtx(string(res.Code), ctx)
 		if out == nil {
 			st.Histogram["priv-output-undumpable:"+why]++
 			if len(st.Extra) < 8 {
@@ -468,6 +575,9 @@ func privStream(r *Rng, st *Stats, cf *CoqFile, n int) {
 				add(&pform{kind: "arith", t: t, x: x, v: v, op: 4}, fs)
 				for op := 0; op < 3; op++ {
 					add(&pform{kind: "log", t: t, x: x, v: v, op: op}, fs)
+				}
+				for ctx := 0; ctx < 6; ctx++ {
+					add(&pform{kind: "target", t: t, x: x, v: v, ctx: ctx}, fs)
 				}
 			}
 		}
@@ -612,9 +722,11 @@ func privStmt(r *Rng, i int) string {
 		// ("o?.#x?.()" loses this when only private names are lowered: finding C05-F17, replayed, not generated)
 		e = r.Pick([]string{tgt + "?." + x + "(" + arg + ")", tgt + "." + x + "?.(" + arg + ")", tgt + "?." + x + "." + r.Pick([]string{"length", "tag"})})
 	case 12:
-		// (a default value in an array pattern, "[o.#x = v] = []", is finding C05-F15: replayed, not generated)
 		e = r.Pick([]string{"([" + tgt + "." + x + "] = [" + privValue(r) + "])", "({a: " + tgt + "." + x + "} = {a: " + privValue(r) + "})",
-			"({a: " + tgt + "." + x + " = " + privValue(r) + "} = {})", "([..." + tgt + "." + x + "] = [" + privValue(r) + "])"})
+			"({a: " + tgt + "." + x + " = " + privValue(r) + "} = {})", "([..." + tgt + "." + x + "] = [" + privValue(r) + "])",
+			"([" + tgt + "." + x + " = " + privValue(r) + "] = [])", "([[" + tgt + "." + x + " = " + privValue(r) + "]] = [[]])",
+			"{ for (" + tgt + "." + x + " of [" + privValue(r) + "]) ; return 1; }", "{ for (" + tgt + "." + x + " in {k: 1}) ; return 1; }",
+			"{ for ([" + tgt + "." + x + " = " + privValue(r) + "] of [[]]) ; return 1; }", "{ for ({a: " + tgt + "." + x + "} of [{a: " + privValue(r) + "}]) ; return 1; }"})
 	case 13:
 		e = "(" + tgt + "." + x + ", " + tgt + "." + r.Pick(privAllNames) + ")"
 	case 14:
